@@ -201,6 +201,7 @@ var (
 	reUp  = regexp.MustCompile(`^\x1b\[(\d+)A\x1b\[J`)
 	reBar = regexp.MustCompile(`\[b(\d+) (-?\d+)/(-?\d+) ([RCA]+)\]`)
 	reExt = regexp.MustCompile(`\[x(\d+)\.(\d+)\]`)
+	reDec = regexp.MustCompile(`^d(\d+)[pa]\d`) // a row whose body was squeezed out still starts with its decorator
 )
 
 func ParseFrame(w OutWrite) Frame {
@@ -230,6 +231,10 @@ func ParseFrame(w OutWrite) Frame {
 			b, _ := strconv.Atoi(m[1])
 			k, _ := strconv.Atoi(m[2])
 			f.Rows = append(f.Rows, Row{Bar: b, Ext: k, Raw: ln})
+			seenRow = true
+		} else if m := reDec.FindStringSubmatch(ln); m != nil {
+			b, _ := strconv.Atoi(m[1])
+			f.Rows = append(f.Rows, Row{Bar: b, Ext: -1, Flags: "?", Raw: ln})
 			seenRow = true
 		} else if !seenRow {
 			f.Text = append(f.Text, ln)
